@@ -21,7 +21,9 @@ What is proved: (a) table algorithm = bit-serial CRC-32 for every buffer and ini
 use at every split point, Python's two-step CRC = C++ `CalculateCRC(message)`; (c) every in-range
 `encode_message` call yields a message with the right fields that all validators accept, failing calls
 leave the sequence number alone, produced messages are numbered consecutively modulo 2^32 over any
-sequence of calls; (d) affine law, every burst ≤ 32 bits and every alteration of the CRC field is rejected
+sequence of calls, every message of a call history carries the source identifier given to its own call (0 when
+omitted; `C06_encoder_call_fields`), a refused call leaves the encoder unchanged and a history leaves nothing
+behind but the count of produced messages (`C06_encoder_state_counts_messages`); (d) affine law, every burst ≤ 32 bits and every alteration of the CRC field is rejected
 by `validate_crc`, `IsValid`, the framer's comparison and the Python stream decoder; (e) the polynomial
 has period 2^32 - 1, hence two altered bits at ANY distance (both in the protected region, both in the CRC
 field, or one in each) are rejected; (f) `C06_oversize_rejected`: for every value of the size field that puts
@@ -168,25 +170,90 @@ theorem C06_encoder_sequence (e : Encoder) (calls : List EncCall) :
   induction calls generalizing e with
   | nil => rfl
   | cons c cs ih =>
-    obtain ⟨type, version, source, payload⟩ := c
-    cases payload with
-    | none =>
-      rw [okOutputs_cons_err (e' := e) (x := .packError) rfl]; exact ih e
-    | some p =>
-      by_cases hfit : EncFits e type version source p
-      · have hseq : (parseHeader (encOutput e type version source p)).sequenceNumber = e.sequenceNumber :=
-          congrArg Header.sequenceNumber (parse_pack _ p (structFits_final hfit))
-        rw [okOutputs_cons_ok (c := ⟨type, version, source, some p⟩) (encodeMessage_ok hfit)]
-        rw [List.map_cons, hseq, ih, List.length_cons, List.range_succ_eq_map, List.map_cons, List.map_map]
-        have h0 : e.sequenceNumber < 4294967296 := hfit.1
-        congr 1
-        · simp; omega
-        · apply List.map_congr_left
-          intro i _
-          simp only [Function.comp_apply]
-          omega
-      · rw [okOutputs_cons_err (c := ⟨type, version, source, some p⟩) (encodeMessage_err hfit)]
-        exact ih e
+    rcases encodeCall_cases e c with ⟨x, hx⟩ | ⟨s, p, -, -, hfit, hok⟩
+    · rw [okOutputs_cons_err hx]; exact ih e
+    · have hseq : (parseHeader (encOutput e c.type c.version s p)).sequenceNumber = e.sequenceNumber :=
+        congrArg Header.sequenceNumber (parse_pack _ p (structFits_final hfit))
+      rw [okOutputs_cons_ok hok]
+      rw [List.map_cons, hseq, ih, List.length_cons, List.range_succ_eq_map, List.map_cons, List.map_map]
+      have h0 : e.sequenceNumber < 4294967296 := hfit.1
+      congr 1
+      · simp; omega
+      · apply List.map_congr_left
+        intro i _
+        simp only [Function.comp_apply]
+        omega
+
+/-- A call as a caller writes it (source identifier given, omitted, or negative; payload packing or raising)
+that is refused leaves the encoder object exactly as it was. -/
+theorem C06_encoder_refused_keeps_state (e : Encoder) (c : EncCall) (x : PyErr)
+    (h : (encodeCall e c).1 = .error x) : (encodeCall e c).2 = e := by
+  rcases encodeCall_cases e c with ⟨y, hy⟩ | ⟨s, p, -, -, -, hok⟩
+  · rw [hy]
+  · rw [hok] at h; cases h
+
+/-- Every message produced anywhere in a history of calls on one encoder carries the source identifier GIVEN
+TO THAT CALL - 0 when the call omits the argument, whatever earlier calls were given - together with the
+type, version and payload bytes of that call's payload object.  (Call `i` of the history produced `out`.) -/
+theorem C06_encoder_call_fields (e : Encoder) (calls : List EncCall) (i : Nat) (c : EncCall) (out : Bytes)
+    (hc : calls[i]? = some c) (ho : (encodeAll e calls)[i]? = some (.ok out)) :
+    ((parseHeader out).sourceId : Int) = c.source.getD 0 ∧
+    (parseHeader out).messageType = c.type ∧ (parseHeader out).messageVersion = c.version ∧
+    c.payload = some (out.drop HDR) ∧ (parseHeader out).payloadSize = (out.drop HDR).length := by
+  induction calls generalizing e i with
+  | nil => simp at hc
+  | cons c0 cs ih =>
+    cases i with
+    | succ j => exact ih (encodeCall e c0).2 j (by simpa using hc) (by simpa [encodeAll] using ho)
+    | zero =>
+      have hc0 : c0 = c := by simpa using hc
+      subst hc0
+      have ho' : (encodeCall e c0).1 = .ok out := by simpa [encodeAll] using ho
+      rcases encodeCall_cases e c0 with ⟨y, hy⟩ | ⟨s, p, hs, hp, hfit, hok⟩
+      · rw [hy] at ho'; cases ho'
+      · rw [hok] at ho'
+        have hout : out = encOutput e c0.type c0.version s p := by injection ho' with h; exact h.symm
+        have hpp := parse_pack (pyFinalHeader (encHeader e c0.type c0.version s) p) p (structFits_final hfit)
+        have hdrop : out.drop HDR = p := by
+          rw [hout]; unfold encOutput
+          rw [List.drop_append_of_le_length (by rw [packHeader_length]; decide),
+            List.drop_of_length_le (by rw [packHeader_length]; decide), List.nil_append]
+        rw [hdrop, hp]
+        rw [hout]; unfold encOutput; rw [hpp]
+        refine ⟨?_, rfl, rfl, rfl, rfl⟩
+        show ((s : Nat) : Int) = c0.source.getD 0
+        exact hs.symm
+
+/-- The only thing a history of calls leaves behind in the encoder object is the NUMBER of messages it
+produced: the state after the history is the starting sequence number advanced by that count modulo 2^32
+(so a later call cannot depend on the source identifiers, types or payloads of earlier calls, nor on the
+refused calls in between). -/
+theorem C06_encoder_state_counts_messages (e : Encoder) (h : e.sequenceNumber < 4294967296)
+    (calls : List EncCall) :
+    encodeState e calls =
+      ⟨(e.sequenceNumber + (okOutputs (encodeAll e calls)).length) % 4294967296⟩ := by
+  induction calls generalizing e with
+  | nil =>
+    show e = ⟨(e.sequenceNumber + 0) % 4294967296⟩
+    rw [Nat.add_zero, Nat.mod_eq_of_lt h]
+  | cons c cs ih =>
+    show encodeState (encodeCall e c).2 cs = _
+    rcases encodeCall_cases e c with ⟨x, hx⟩ | ⟨s, p, -, -, -, hok⟩
+    · rw [okOutputs_cons_err hx, hx]; exact ih e h
+    · rw [okOutputs_cons_ok hok, hok, ih _ (Nat.mod_lt _ (by decide)), List.length_cons]
+      congr 1
+      show ((e.sequenceNumber + 1) % 4294967296 + _) % 4294967296 = _
+      omega
+
+/-- A history splits at any point: the results of the calls after the split are those of the same calls on
+the encoder state the first part left. -/
+theorem C06_encoder_history_split (e : Encoder) (pre post : List EncCall) :
+    encodeAll e (pre ++ post) = encodeAll e pre ++ encodeAll (encodeState e pre) post := by
+  induction pre generalizing e with
+  | nil => rfl
+  | cons c cs ih =>
+    show (encodeCall e c).1 :: encodeAll (encodeCall e c).2 (cs ++ post) = _
+    rw [ih]; rfl
 
 /-! ## (d) Error detection -/
 
@@ -427,6 +494,15 @@ example : HDR ≤ (c06Crafted.take 16 ++ [0xFF, 0xFF, 0xFF, 0xFF] ++ (c06Crafted
 bytes): hypotheses of `C06_encoder_valid` hold, and the bytes are the ones the Python encoder
 returns (checked against the implementation by the harness). -/
 example : EncFits ⟨5⟩ 10000 1 7 [0xAB, 0xCD] := by unfold EncFits; decide
+
+/-- A history on one encoder: source identifier 7 given, then omitted, then 2^32 (refused), then omitted: the
+second and the last message carry source identifier 0 and the produced messages are numbered 0, 1, 2. -/
+example :
+    (okOutputs (encodeAll Encoder.init
+      [⟨10000, 0, some 7, some [1]⟩, ⟨10000, 0, none, some [2]⟩, ⟨10000, 0, some 4294967296, some [3]⟩,
+       ⟨10000, 0, some (-1), some [3]⟩, ⟨10000, 0, some 9, none⟩, ⟨10000, 0, none, some [4]⟩])).map
+      (fun o => ((parseHeader o).sourceId, (parseHeader o).sequenceNumber)) = [(7, 0), (0, 1), (0, 2)] := by
+  decide +kernel
 
 example : IsBurst (bitsOf (flipPattern 3 1 6)) := C06_single_bit_is_burst 3 1 6 (by decide) (by decide)
 
